@@ -22,15 +22,19 @@ Proof.
   destruct (g_comments g); [discriminate | reflexivity].
 Qed.
 
-Lemma node_free nid nd :
-  get_node g nid = Some nd -> n_ws nd = None /\ n_skipws nd = None /\ n_eolterm nd = false.
+Lemma node_free4 nid nd :
+  get_node g nid = Some nd ->
+  n_ws nd = None /\ n_skipws nd = None /\ n_eolterm nd = false /\ is_unord (n_kind nd) = false.
 Proof.
   intro Hn. unfold ctx_constant in H. apply andb_true_iff in H as [H1 _].
   rewrite forallb_forall in H1. unfold get_node in Hn. apply nth_error_In in Hn.
   specialize (H1 _ Hn). unfold node_ctx_free in H1.
   destruct (n_ws nd); [discriminate|]. destruct (n_skipws nd); [discriminate|].
-  destruct (n_eolterm nd); [discriminate|]. auto.
+  destruct (n_eolterm nd); [discriminate|]. destruct (is_unord (n_kind nd)); [discriminate|]. auto.
 Qed.
+Lemma node_free nid nd :
+  get_node g nid = Some nd -> n_ws nd = None /\ n_skipws nd = None /\ n_eolterm nd = false.
+Proof. intro Hn. destruct (node_free4 _ _ Hn) as (A & B & C & _). auto. Qed.
 
 Definition is_abort (o : out) : bool := match o with Abort _ => true | _ => false end.
 Definition ostate (d : st) (o : out) : st := match o with Ok _ s | Fail s => s | Abort _ => d end.
@@ -431,6 +435,267 @@ Proof.
     pose proof (body0_good (parse g input orc false f) f nd s IH C) as G.
     destruct (body0 (parse g input orc false f) f nd s); cbn in G |- *; auto;
       destruct G as [D1 C1]; split; auto using dom_set_pos_r.
+Qed.
+
+
+(* ================================================================ A: re-running is idempotent *)
+Definition rerun_ok (o : out) (s' : st) (o' : out) : Prop :=
+  is_abort o' = true \/ o' = omap (fun s1 => set_pos (pos s1) s') o.
+
+Definition rec_rerun (rec rec' : parser) : Prop :=
+  forall c psq s s', cpos_id (cpos s) -> cpos_id (cpos s') ->
+    is_abort (rec c psq s) = false -> dom (ostate s (rec c psq s)) s' -> pos s' = pos s ->
+    rerun_ok (rec c psq s) s' (rec' c psq s').
+
+Lemma na_ostate d d' o : is_abort o = false -> ostate d o = ostate d' o.
+Proof. destruct o; cbn; congruence. Qed.
+Lemma good_na s o d : good s o -> is_abort o = false -> dom s (ostate d o) /\ cpos_id (cpos (ostate d o)).
+Proof. destruct o; cbn; auto; discriminate. Qed.
+Lemma rerun_ok_pos p o s' o' : rerun_ok o (set_pos p s') o' -> rerun_ok o s' o'.
+Proof.
+  intros [A|E]; [left; exact A | right]. rewrite E. destruct o; cbn; now rewrite ?set_pos_set_pos.
+Qed.
+Lemma rerun_same o s : pos s = pos (ostate s o) -> rerun_ok o s (omap (fun _ => s) o).
+Proof. intro P. right. destruct o; cbn in *; try reflexivity; now rewrite <- P, set_pos_same. Qed.
+
+Ltac ab A := match type of A with is_abort ?x = true => destruct x; try discriminate A; now left end.
+
+Section A1.
+Variables rec rec' : parser.
+Hypothesis Hg : rec_good rec.
+Hypothesis Hrr : rec_rerun rec rec'.
+
+(* one child call: either the re-run aborts, or it returns the same result with only the position moved *)
+Lemma call_rerun c psq s s' sf :
+  cpos_id (cpos s) -> cpos_id (cpos s') -> pos s' = pos s ->
+  is_abort (rec c psq s) = false ->
+  dom (ostate s (rec c psq s)) sf -> dom sf s' ->
+  is_abort (rec' c psq s') = true \/
+  rec' c psq s' = omap (fun s1 => set_pos (pos s1) s') (rec c psq s).
+Proof.
+  intros C C' P NA D1 D2. apply Hrr; auto. eapply dom_trans; eassumption.
+Qed.
+
+Lemma seq_loop_rerun psq kids : forall acc s s',
+  cpos_id (cpos s) -> cpos_id (cpos s') ->
+  is_abort (seq_loop rec psq kids acc s) = false ->
+  dom (ostate s (seq_loop rec psq kids acc s)) s' -> pos s' = pos s ->
+  rerun_ok (seq_loop rec psq kids acc s) s' (seq_loop rec' psq kids acc s').
+Proof.
+  induction kids as [|c kids IH]; intros acc s s' C C' NA D P; cbn [seq_loop] in *.
+  - right. cbn. now rewrite <- P, set_pos_same.
+  - pose proof (Hg c psq s C) as G.
+    destruct (rec c psq s) as [r s1|s1|w] eqn:E; try discriminate NA.
+    + destruct G as [D1 C1].
+      set (acc' := if truthy r then acc ++ [r] else acc) in *.
+      pose proof (seq_loop_good rec Hg psq kids acc' s1 C1) as G2.
+      destruct (good_na _ _ s1 G2 NA) as [D2 _].
+      rewrite (na_ostate s s1) in D by exact NA.
+      destruct (call_rerun c psq s s' s1 C C' P) as [A|Eq]; rewrite ?E; cbn; auto using dom_refl.
+      { eapply dom_trans; eassumption. }
+      { destruct (rec' c psq s'); try discriminate A. now left. }
+      rewrite E in Eq. cbn in Eq. rewrite Eq. fold acc'.
+      apply rerun_ok_pos with (p := pos s1). apply IH; auto using dom_set_pos_r.
+    + destruct (call_rerun c psq s s' s1 C C' P) as [A|Eq]; rewrite ?E; cbn; auto using dom_refl.
+      { destruct (rec' c psq s'); try discriminate A. now left. }
+      rewrite E in Eq. cbn in Eq. rewrite Eq. now right.
+Qed.
+
+
+Lemma call_ok c psq s s' r s1 :
+  rec c psq s = Ok r s1 -> cpos_id (cpos s) -> cpos_id (cpos s') -> pos s' = pos s -> dom s1 s' ->
+  is_abort (rec' c psq s') = true \/ rec' c psq s' = Ok r (set_pos (pos s1) s').
+Proof.
+  intros E C C' P D. pose proof (Hrr c psq s s' C C') as R. rewrite E in R. cbn in R. now apply R.
+Qed.
+Lemma call_fail c psq s s' s1 :
+  rec c psq s = Fail s1 -> cpos_id (cpos s) -> cpos_id (cpos s') -> pos s' = pos s -> dom s1 s' ->
+  is_abort (rec' c psq s') = true \/ rec' c psq s' = Fail (set_pos (pos s1) s').
+Proof.
+  intros E C C' P D. pose proof (Hrr c psq s s' C C') as R. rewrite E in R. cbn in R. now apply R.
+Qed.
+
+
+Lemma choice_loop_rerun cp kids : forall s s',
+  cpos_id (cpos s) -> cpos_id (cpos s') ->
+  is_abort (choice_loop rec cp kids s) = false ->
+  dom (ostate s (choice_loop rec cp kids s)) s' -> pos s' = pos s ->
+  rerun_ok (choice_loop rec cp kids s) s' (choice_loop rec' cp kids s').
+Proof.
+  induction kids as [|c kids IH]; intros s s' C C' NA D P; cbn [choice_loop] in *.
+  - right. cbn. now rewrite <- P, set_pos_same.
+  - pose proof (Hg c false s C) as G.
+    destruct (rec c false s) as [r s1|s1|w] eqn:E; try discriminate NA; destruct G as [D1 C1].
+    + destruct (is_none r) eqn:N.
+      * pose proof (choice_loop_good rec Hg cp kids s1 C1) as G2.
+        destruct (good_na _ _ s1 G2 NA) as [D2 _].
+        rewrite (na_ostate s s1) in D by exact NA.
+        destruct (call_ok c false s s' r s1 E C C' P) as [A|Eq]; [eapply dom_trans; eassumption | ab A |].
+        rewrite Eq, N. apply rerun_ok_pos with (p := pos s1). apply IH; auto using dom_set_pos_r.
+      * cbn in D. destruct (call_ok c false s s' r s1 E C C' P D) as [A|Eq]; [ab A|].
+        rewrite Eq, N. now right.
+    + pose proof (choice_loop_good rec Hg cp kids (set_pos cp s1) C1) as G2.
+      destruct (good_na _ _ s1 G2 NA) as [D2 _]. apply dom_set_pos_l_inv in D2.
+      rewrite (na_ostate s s1) in D by exact NA.
+      destruct (call_fail c false s s' s1 E C C' P) as [A|Eq]; [eapply dom_trans; eassumption | ab A |].
+      rewrite Eq, set_pos_set_pos. apply rerun_ok_pos with (p := cp).
+      apply IH; auto using dom_set_pos_r.
+      rewrite (na_ostate _ s1) by exact NA. now apply dom_set_pos_r.
+Qed.
+
+Lemma rep_loop_rerun e sep plus k : forall k' first acc s s',
+  cpos_id (cpos s) -> cpos_id (cpos s') ->
+  is_abort (rep_loop rec e sep plus k first acc s) = false ->
+  dom (ostate s (rep_loop rec e sep plus k first acc s)) s' -> pos s' = pos s ->
+  rerun_ok (rep_loop rec e sep plus k first acc s) s' (rep_loop rec' e sep plus k' first acc s').
+Proof.
+  induction k as [|k IH]; intros k' first acc s s' C C' NA D P; cbn [rep_loop] in *; [discriminate NA|].
+  destruct k' as [|k']; [now left|]. cbn [rep_loop]. rewrite P.
+  set (elem := fun (rc : parser) (kk : nat) (acc1 : list res) (s1 : st) =>
+        match rc e false s1 with
+        | Ok r s2 => if truthy r then rep_loop rc e sep plus kk false (acc1 ++ [r]) s2
+                     else Ok (RList acc1) s2
+        | Fail s2 => if (plus && first)%bool then Fail (set_pos (pos s) s2)
+                     else Ok (RList acc1) (set_pos (pos s) s2)
+        | Abort w => Abort w
+        end).
+  assert (Helem : forall acc1 s1 s1', cpos_id (cpos s1) -> cpos_id (cpos s1') -> pos s1' = pos s1 ->
+            is_abort (elem rec k acc1 s1) = false -> dom (ostate s1 (elem rec k acc1 s1)) s1' ->
+            rerun_ok (elem rec k acc1 s1) s1' (elem rec' k' acc1 s1')).
+  { intros acc1 s1 s1' C1 C1' P1 NA1 D1. unfold elem in *.
+    pose proof (Hg e false s1 C1) as G.
+    destruct (rec e false s1) as [r s2|s2|w] eqn:E; try discriminate NA1; destruct G as [D2 C2].
+    - destruct (truthy r) eqn:T.
+      + pose proof (rep_loop_good rec Hg e sep plus k false (acc1 ++ [r]) s2 C2) as G2.
+        destruct (good_na _ _ s2 G2 NA1) as [D3 _].
+        rewrite (na_ostate s1 s2) in D1 by exact NA1.
+        destruct (call_ok e false s1 s1' r s2 E C1 C1' P1) as [A|Eq]; [eapply dom_trans; eassumption | ab A |].
+        rewrite Eq, T. apply rerun_ok_pos with (p := pos s2). apply IH; auto using dom_set_pos_r.
+      + cbn in D1. destruct (call_ok e false s1 s1' r s2 E C1 C1' P1 D1) as [A|Eq]; [ab A|].
+        rewrite Eq, T. now right.
+    - assert (Ds : dom s2 s1').
+      { destruct (plus && first)%bool; cbn in D1; now apply dom_set_pos_l_inv in D1. }
+      destruct (call_fail e false s1 s1' s2 E C1 C1' P1 Ds) as [A|Eq]; [ab A|].
+      rewrite Eq. destruct (plus && first)%bool; right; cbn; now rewrite set_pos_set_pos. }
+  fold (elem rec k) in NA, D |- *. fold (elem rec' k').
+  destruct sep as [sp|]; [|now apply Helem].
+  destruct first; [now apply Helem|].
+  pose proof (Hg sp false s C) as G.
+  destruct (rec sp false s) as [sr s1|s1|w] eqn:E; try discriminate NA; destruct G as [D1 C1].
+  - set (acc1 := if truthy sr then acc ++ [sr] else acc) in *.
+    assert (G2 : good s1 (elem rec k acc1 s1)).
+    { unfold elem. pose proof (Hg e false s1 C1) as G3.
+      destruct (rec e false s1) as [r s2|s2|w]; cbn in G3 |- *; auto; destruct G3 as [D3 C3].
+      - destruct (truthy r); [|split; assumption].
+        eapply good_trans; [exact D3 | now apply rep_loop_good].
+      - destruct (plus && false)%bool; split; auto using dom_set_pos_r. }
+    destruct (good_na _ _ s1 G2 NA) as [D2 _].
+    rewrite (na_ostate s s1) in D by exact NA.
+    destruct (call_ok sp false s s' sr s1 E C C' P) as [A|Eq]; [eapply dom_trans; eassumption | ab A |].
+    rewrite Eq. fold acc1. apply rerun_ok_pos with (p := pos s1).
+    apply Helem; auto using dom_set_pos_r.
+  - rewrite andb_false_r in *. cbn in D. apply dom_set_pos_l_inv in D.
+    destruct (call_fail sp false s s' s1 E C C' P D) as [A|Eq]; [ab A|].
+    rewrite Eq. right. cbn. now rewrite set_pos_set_pos.
+Qed.
+
+
+Lemma body0_rerun k k' nd : is_unord (n_kind nd) = false ->
+  (forall kk kk' first acc s s' e sep plus, cpos_id (cpos s) -> cpos_id (cpos s') ->
+     is_abort (rep_loop rec e sep plus kk first acc s) = false ->
+     dom (ostate s (rep_loop rec e sep plus kk first acc s)) s' -> pos s' = pos s ->
+     rerun_ok (rep_loop rec e sep plus kk first acc s) s' (rep_loop rec' e sep plus kk' first acc s')) ->
+  forall s s', cpos_id (cpos s) -> cpos_id (cpos s') ->
+  is_abort (body0 rec k nd s) = false ->
+  dom (ostate s (body0 rec k nd s)) s' -> pos s' = pos s ->
+  rerun_ok (body0 rec k nd s) s' (body0 rec' k' nd s').
+Proof.
+  intros NU Hrep s s' C C' NA D P. unfold body0 in *. rewrite P.
+  destruct (n_kind nd); try discriminate NA; try discriminate NU.
+  - (* Sequence *)
+    pose proof (seq_loop_rerun true (n_kids nd) [] s s' C C') as R.
+    destruct (seq_loop rec true (n_kids nd) [] s) as [r s1|s1|w] eqn:E; try discriminate NA.
+    + assert (D1 : dom s1 s') by (destruct r as [|t|[|x l]]; exact D).
+      destruct (R eq_refl D1 P) as [A|Eq]; [ab A|]. rewrite Eq. cbn.
+      right. destruct r as [|t|[|x l]]; reflexivity.
+    + cbn in D. apply dom_set_pos_l_inv in D.
+      destruct (R eq_refl D P) as [A|Eq]; [ab A|]. rewrite Eq. cbn. right. cbn.
+      now rewrite set_pos_set_pos.
+  - (* OrderedChoice *)
+    pose proof (choice_loop_rerun (pos s) (n_kids nd) s s' C C') as R.
+    pose proof (choice_loop_good rec Hg (pos s) (n_kids nd) s C) as G.
+    destruct (choice_loop rec (pos s) (n_kids nd) s) as [r s1|s1|w] eqn:E; try discriminate NA.
+    + destruct G as [D0 C1]. destruct (is_none r) eqn:N.
+      * cbn in D. assert (D1 : dom s1 s') by (eapply dom_trans; [apply dom_reg_fail | exact D]).
+        destruct (R eq_refl D1 P) as [A|Eq]; [ab A|]. rewrite Eq. cbn. rewrite N.
+        right. unfold nm_raise. cbn.
+        assert (D2 : dom (reg_fail (pos s) s1) (set_pos (pos s1) s')) by now apply dom_set_pos_r.
+        rewrite (reg_fail_saturated _ _ _ D2). now rewrite pos_reg_fail.
+      * cbn in D. destruct (R eq_refl D P) as [A|Eq]; [ab A|]. rewrite Eq. cbn. rewrite N. now right.
+    + cbn in D. destruct (R eq_refl D P) as [A|Eq]; [ab A|]. rewrite Eq. now right.
+  - (* Optional *)
+    destruct (n_kids nd) as [|e l]; [discriminate NA|].
+    destruct (rec e false s) as [r s1|s1|w] eqn:E; try discriminate NA.
+    + cbn in D. destruct (call_ok e false s s' r s1 E C C' P D) as [A|Eq]; [ab A|]. rewrite Eq. now right.
+    + cbn in D. apply dom_set_pos_l_inv in D.
+      destruct (call_fail e false s s' s1 E C C' P D) as [A|Eq]; [ab A|]. rewrite Eq. right. cbn.
+      now rewrite set_pos_set_pos.
+  - destruct (n_kids nd) as [|e l]; [discriminate NA|]. now apply Hrep.
+  - destruct (n_kids nd) as [|e l]; [discriminate NA|]. now apply Hrep.
+  - (* And *)
+    pose proof (seq_loop_rerun false (n_kids nd) [] s s' C C') as R.
+    destruct (seq_loop rec false (n_kids nd) [] s) as [r s1|s1|w] eqn:E; try discriminate NA;
+      cbn in D; apply dom_set_pos_l_inv in D;
+      (destruct (R eq_refl D P) as [A|Eq]; [ab A|]); rewrite Eq; cbn; right; cbn;
+      now rewrite set_pos_set_pos.
+  - (* Not *)
+    pose proof (seq_loop_rerun false (n_kids nd) [] s s' C C') as R.
+    destruct (seq_loop rec false (n_kids nd) [] s) as [r s1|s1|w] eqn:E; try discriminate NA.
+    + cbn in D. assert (D1 : dom s1 s').
+      { eapply dom_trans; [|exact D]. eapply dom_trans; [|apply dom_reg_fail]. apply dom_set_pos_r, dom_refl. }
+      destruct (R eq_refl D1 P) as [A|Eq]; [ab A|]. rewrite Eq. cbn. right. unfold nm_raise. cbn.
+      rewrite set_pos_set_pos.
+      assert (D2 : dom (reg_fail (pos s) (set_pos (pos s) s1)) (set_pos (pos s) s')) by now apply dom_set_pos_r.
+      rewrite (reg_fail_saturated _ _ _ D2). now rewrite pos_reg_fail.
+    + cbn in D. apply dom_set_pos_l_inv in D.
+      destruct (R eq_refl D P) as [A|Eq]; [ab A|]. rewrite Eq. cbn. right. cbn. now rewrite set_pos_set_pos.
+  - right. cbn. now rewrite <- P, set_pos_same.
+Qed.
+
+End A1.
+
+
+Lemma parse_rerun f : forall f', rec_rerun (parse g input orc false f) (parse g input orc false f').
+Proof.
+  induction f as [|f IH]; intros f' nid psq s s' C C' NA D P; cbn [parse] in *; [discriminate NA|].
+  destruct f' as [|f']; [now left|]. cbn [parse].
+  destruct (get_node g nid) as [nd|] eqn:Hn; [|discriminate NA].
+  destruct (is_match_kind (n_kind nd)) eqn:MK.
+  - rewrite !match_pre_eq in *. destruct (mpre_good s C) as [D1 C1].
+    pose proof (term_good nid (n_kind nd) psq (mpre s) C1) as G.
+    pose proof (term_rerun nid (n_kind nd) psq (mpre s) (set_pos (pos (mpre s)) s')) as R.
+    destruct (term_parse input orc nid (n_kind nd) psq (mpre s)) as [r s1|s1|w] eqn:E;
+      try discriminate NA; destruct G as [D2 C2]; cbn in D.
+    + assert (Dm : dom (mpre s) s') by (eapply dom_trans; eassumption).
+      rewrite (mpre_rerun s s' C C' Dm P).
+      rewrite (R eq_refl (dom_set_pos_r _ _ _ D) eq_refl). cbn. right. cbn. now rewrite set_pos_set_pos.
+    + assert (Dm : dom (mpre s) s') by (eapply dom_trans; eassumption).
+      rewrite (mpre_rerun s s' C C' Dm P).
+      rewrite (R eq_refl (dom_set_pos_r _ _ _ D) eq_refl). cbn. right. cbn. now rewrite set_pos_set_pos.
+  - cbn in *. destruct (node_free4 _ _ Hn) as (_ & _ & _ & NU).
+    rewrite !(body_eq _ _ _ _ _ Hn) in *. rewrite P.
+    pose proof (body0_rerun (parse g input orc false f) (parse g input orc false f') (parse_good f) (IH f') f f' nd NU) as R.
+    assert (Hrep : forall kk kk' first acc s s' e sep plus, cpos_id (cpos s) -> cpos_id (cpos s') ->
+       is_abort (rep_loop (parse g input orc false f) e sep plus kk first acc s) = false ->
+       dom (ostate s (rep_loop (parse g input orc false f) e sep plus kk first acc s)) s' -> pos s' = pos s ->
+       rerun_ok (rep_loop (parse g input orc false f) e sep plus kk first acc s) s'
+                (rep_loop (parse g input orc false f') e sep plus kk' first acc s')).
+    { intros. apply rep_loop_rerun; auto using parse_good. }
+    specialize (R Hrep s s' C C').
+    destruct (body0 (parse g input orc false f) f nd s) as [r s1|s1|w] eqn:E; try discriminate NA; cbn in D.
+    + destruct (R eq_refl D P) as [A|Eq]; [ab A|]. rewrite Eq. now right.
+    + apply dom_set_pos_l_inv in D.
+      destruct (R eq_refl D P) as [A|Eq]; [ab A|]. rewrite Eq. right. cbn. now rewrite set_pos_set_pos.
 Qed.
 
 End Memo.
